@@ -128,7 +128,7 @@ impl<'tcx> Cx<'tcx> {
                             if let Some(l) = cdid.as_local() {
                                 let caps = tcx.closure_captures(l);
                                 if idx < caps.len() {
-                                    nm = caps[idx].var_ident.name.to_string();
+                                    nm = caps[idx].to_string(tcx);
                                 }
                             }
                             ("closure".to_string(), nm)
@@ -349,7 +349,7 @@ impl<'tcx> Cx<'tcx> {
                 let caps: Vec<String> = tcx
                     .closure_captures(l)
                     .iter()
-                    .map(|c| format!("{{\"name\":{},\"by_ref\":{}}}", esc(&c.var_ident.name.to_string()), c.is_by_ref()))
+                    .map(|c| format!("{{\"name\":{},\"by_ref\":{}}}", esc(&c.to_string(tcx)), c.is_by_ref()))
                     .collect();
                 let _ = write!(s, ",\"upvars\":[{}]", caps.join(","));
             }
